@@ -287,6 +287,18 @@ create_1d_filter (int              width,
 
 	/* Normalize, with error diffusion */
 	p -= width;
+	if (total == 0)
+	{
+	    /* No tap received any weight: this happens when an IMPULSE
+	     * kernel falls between the sample positions of this phase
+	     * (IMPULSE.IMPULSE always, IMPULSE.BOX at small scales, ...).
+	     * The filter then degenerates to the nearest sample; dividing
+	     * by zero below would produce NaNs instead.
+	     */
+	    p[width / 2] = pixman_fixed_1;
+	    p += width;
+	    continue;
+	}
         total = 65536.0 / total;
         new_total = 0;
 	e = 0.0;
@@ -312,7 +324,11 @@ create_1d_filter (int              width,
 static int
 filter_width (pixman_kernel_t reconstruct, pixman_kernel_t sample, double size)
 {
-    return ceil (filters[reconstruct].width + size * filters[sample].width);
+    int width = ceil (filters[reconstruct].width + size * filters[sample].width);
+
+    /* The convolution of two impulses is an impulse: it still needs one
+     * tap, otherwise create_1d_filter() writes outside its table. */
+    return MAX (width, 1);
 }
 
 #ifdef PIXMAN_GNUPLOT
